@@ -535,6 +535,18 @@ def case_M(draw):
                "bhp": _lin(draw, 300, 600)}
     m["G1"] = [_lin(draw, 100, 10000), _lin(draw, 100, 10000), _lin(draw, 1e4, 1e6), _lin(draw, 100, 20000)]
     m["TSTEP"] = [_lin(draw, 0.5, 40) for _ in range(draw(st.integers(1, 3)))]
+    # keyword operations with a dimensioned scalar (the scalar is converted by another table than the array keyword's
+    # own items): on permeabilities in GRID, on the pore volume in EDIT; each on one whole layer
+    ops = []
+    for _ in range(draw(st.integers(0, 3))):
+        arr = draw(st.sampled_from(["PERMX", "PERMZ", "PORV", "PORV"]))
+        k = draw(st.integers(0, nz - 1))
+        if arr == "PORV":
+            ops.append({"kw": "EQUALS", "arr": arr, "u": _lin(draw, 50, 50000), "k": k})
+        else:
+            ops.append({"kw": draw(st.sampled_from(["EQUALS", "ADD", "MINVALUE", "MAXVALUE"])), "arr": arr,
+                        "u": _lin(draw, 1, 2000), "k": k})
+    m["ops"] = ops
     return m
 
 
@@ -562,6 +574,13 @@ def render_model(m, s):
     t += "WELLDIMS\n 2 6 2 2 /\nTABDIMS\n /\nEQLDIMS\n /\nGRID\n"
     t += arr("DX", L) + arr("DY", L) + arr("DZ", L) + arr("TOPS", L)
     t += arr("PORO", "1") + arr("NTG", "1") + arr("PERMX", PERM) + arr("PERMY", PERM) + arr("PERMZ", PERM)
+    def oprec(o, d):
+        return "%s\n %s %s 1 %d 1 %d %d %d /\n/\n" % (o["kw"], o["arr"], c(o["u"], d), nx, ny, o["k"] + 1, o["k"] + 1)
+    for o in m.get("ops", []):
+        if o["arr"] != "PORV":
+            t += oprec(o, PERM)
+    if any(o["arr"] == "PORV" for o in m.get("ops", [])):
+        t += "EDIT\n" + "".join(oprec(o, "ReservoirVolume") for o in m["ops"] if o["arr"] == "PORV")
     t += "PROPS\n"
     t += "DENSITY\n %s /\n" % " ".join(c(u, DENS) for u in m["DENSITY"])
     t += "PVTW\n %s /\n" % " ".join(c(u, d) for u, d in zip(m["PVTW"], [P, BO, "1/Pressure", VISC, "1/Pressure"]))
@@ -609,6 +628,16 @@ def model_expect(m):
     for kw in ("PERMX", "PERMY", "PERMZ"):
         e[kw] = [si_of(u, PERM) for u in m[kw]]
     e["PORV"] = [e["volume"][g] * m["PORO"][g] * m["NTG"][g] for g in range(n)]
+    for o in m.get("ops", []):
+        layer = range(o["k"] * nx * ny, (o["k"] + 1) * nx * ny)
+        if o["arr"] == "PORV":
+            for g in layer:
+                e["PORV"][g] = si_of(o["u"], "ReservoirVolume")
+        else:
+            v = si_of(o["u"], PERM)
+            for g in layer:
+                x = e[o["arr"]][g]
+                e[o["arr"]][g] = {"EQUALS": v, "ADD": x + v, "MINVALUE": max(x, v), "MAXVALUE": min(x, v)}[o["kw"]]
     e["DENSITY"] = [si_of(u, DENS) for u in m["DENSITY"]]
     e["PVTW"] = [si_of(u, d) for u, d in zip(m["PVTW"], [P, BO, "1/Pressure", VISC, "1/Pressure"])]
     e["ROCK"] = [si_of(u, d) for u, d in zip(m["ROCK"], [P, "1/Pressure"])]
